@@ -187,3 +187,32 @@ __CPROVER_ensures((COUNT_SPECS == 1 && g_exc == 0) ==> (self->_additional_format
     dropped=['pattern text: positions of the three specifiers are symbolic (std::string::find)', 'mem-initialiser list (moves the pattern string)', 'assert (NDEBUG)'],
     trusted=['std::string::find / substr', 'StringFromTime::init (rejects %X: unit SFT.init)'], min_obligations=20)
 UNITS.append(tf_ctor)
+
+IN_PRELUDE = r'''
+typedef uint8_t Timezone; enum { TZ_LocalTime, TZ_GmtTime };
+typedef struct SFTi { Timezone _time_zone; } SFTi;
+bool g_has_X; size_t g_replaces, g_populates, g_clock, g_t_last_replace, g_t_populate; int g_replaced[3];
+static inline bool FORMAT_has_X(SFTi* s) { return g_has_X; }
+void REPLACE_ALL(SFTi* self, int which) __CPROVER_requires(which >= 0 && which < 3) __CPROVER_assigns(g_replaces, g_clock, g_t_last_replace, __CPROVER_object_whole(g_replaced))
+__CPROVER_ensures(g_replaces == OLD(g_replaces) + 1 && g_clock == OLD(g_clock) + 1 && g_t_last_replace == g_clock && g_replaced[0] == (which == 0 ? 1 : OLD(g_replaced[0])) && g_replaced[1] == (which == 1 ? 1 : OLD(g_replaced[1])) && g_replaced[2] == (which == 2 ? 1 : OLD(g_replaced[2])));
+void SFT__populate_initial_parts(SFTi* self) __CPROVER_assigns(g_populates, g_clock, g_t_populate) __CPROVER_ensures(g_populates == OLD(g_populates) + 1 && g_clock == OLD(g_clock) + 1 && g_t_populate == g_clock);
+'''
+sft_init = dict(
+    name='SFT.init', primary='C13', props={'C13'}, kind='S',
+    desc='StringFromTime::init: %X is rejected; %r, %R and %T are expanded before the pattern is split into parts',
+    structs=[], prelude=IN_PRELUDE, enforce='SFT_init', replace=['REPLACE_ALL', 'SFT__populate_initial_parts'],
+    funcs=[dict(src=dict(header=H, cls='StringFromTime', name='init'), src_params=['timestamp_format', 'timezone'], cfun='SFT_init', sig='void SFT_init(SFTi* self, Timezone timezone)', cls_c='SFT',
+                member_fields=['_time_zone'], siblings=['_populate_initial_parts'], exceptions=True, may_throw=[],
+                pre_rules=[(r'_timestamp_format\s*=\s*std::move\(timestamp_format\)\s*;', ''), (r'_timestamp_format\.find\("%X"\)\s*!=\s*std::string::npos', 'FORMAT_has_X(self)'),
+                           (r'throw\s*\(?\s*QuillError\s*\(.*?\)\s*\)?\s*;', 'throw(QuillError{"x"});'),
+                           (r'_replace_all\(_timestamp_format,\s*"%r",\s*"%I:%M:%S %p"\)', 'REPLACE_ALL(self, 0)'), (r'_replace_all\(_timestamp_format,\s*"%R",\s*"%H:%M"\)', 'REPLACE_ALL(self, 1)'),
+                           (r'_replace_all\(_timestamp_format,\s*"%T",\s*"%H:%M:%S"\)', 'REPLACE_ALL(self, 2)'), (r'_populate_initial_parts\(_timestamp_format\)', '_populate_initial_parts()')],
+                contract=r'''
+__CPROVER_requires(__CPROVER_is_fresh(self, sizeof(*self)) && g_exc == 0 && g_replaces == 0 && g_populates == 0 && g_clock == 0 && g_replaced[0] == 0 && g_replaced[1] == 0 && g_replaced[2] == 0 && timezone <= TZ_GmtTime)
+__CPROVER_assigns(self->_time_zone, g_exc, g_replaces, g_populates, g_clock, g_t_last_replace, g_t_populate, __CPROVER_object_whole(g_replaced))
+__CPROVER_ensures(g_has_X ==> (g_exc == EXC_STD && g_populates == 0)) /*@ C13 "%X is rejected when the formatter is created" */
+__CPROVER_ensures(!g_has_X ==> (g_exc == 0 && g_replaced[0] == 1 && g_replaced[1] == 1 && g_replaced[2] == 1 && g_replaces == 3 && g_populates == 1 && g_t_last_replace < g_t_populate && self->_time_zone == timezone)) /*@ C13 "%r, %R and %T are expanded to their H/M/S forms (so that the cached fields cover them) before the pattern is split; the time zone is recorded" */
+''')],
+    harness='  SFTi* s; Timezone z; SFT_init(s, z);',
+    dropped=['the pattern string (presence of %X as a boolean); _replace_all and _populate_initial_parts / _split_timestamp_format_once (string and std::map code: NOT covered)'], trusted=[], min_obligations=10)
+UNITS.append(sft_init)
